@@ -108,6 +108,8 @@ func c09pRun(c c09pCase) (string, string) {
 		"team@list.example": {"m1@example.org", "m2@example.org"},
 		"other@example.org": {"final@example.org"},
 		"step1@example.org": {"step2@example.org"},
+		// the result of one rewrite is itself an address with an entry (modifiers rewrite once)
+		"final@example.org": {"deep2@example.org"},
 	}
 	c09pInner.m = map[string][]string{"step2@example.org": {"step3@example.org"}, "final@example.org": {"deep@example.org"}}
 	c09pPart.Reset()
@@ -233,7 +235,7 @@ func keys(m map[string]bool) []string {
 func TestVerifC09Pipeline(t *testing.T) {
 	r := vx.Start("C09", "pipeline")
 	defer r.Finish()
-	r.Rule("5 pipeline shapes (global 1->1 rewrite + per-recipient target, destination 1->2 rewrite, atomic target, atomic + per-recipient targets, nested reroute with rewriting at both levels) x client recipient lists of 1-3 over {plain, alias, second alias of the same mailbox, list address, two-step alias} x failure on each final address / atomic body failure / none x message fresh or already rewritten by a pipeline in front of a queue (OriginalRcpts arrives filled), through the real msgpipeline BodyNonAtomic; oracle: every status key is an address the client supplied, a failing final address is reported under the client's address, nothing else fails. Non-trivial: distinct cases with a failure")
+	r.Rule("5 pipeline shapes (global 1->1 rewrite + per-recipient target, destination 1->2 rewrite, atomic target, atomic + per-recipient targets, nested reroute with rewriting at both levels) x client recipient lists of 1-3 over {plain, alias, second alias of the same mailbox, list address, two-step alias, an address that is both the result of one alias and itself an alias} x failure on each final address / atomic body failure / none x message fresh or already rewritten by a pipeline in front of a queue (OriginalRcpts arrives filled), through the real msgpipeline BodyNonAtomic; oracle: every status key is an address the client supplied, a failing final address is reported under the client's address, nothing else fails. Non-trivial: distinct cases with a failure")
 	if rp := r.Replay(); rp != nil {
 		var c c09pCase
 		if json.Unmarshal(rp, &c) != nil {
@@ -250,7 +252,7 @@ func TestVerifC09Pipeline(t *testing.T) {
 	if r.Replaying() {
 		return
 	}
-	alpha := []string{"plain@example.org", "alias@example.org", "other@example.org", "team@list.example", "step1@example.org"}
+	alpha := []string{"plain@example.org", "alias@example.org", "other@example.org", "team@list.example", "step1@example.org", "final@example.org"}
 	var lists [][]string
 	for i, a := range alpha {
 		lists = append(lists, []string{a})
@@ -265,7 +267,7 @@ func TestVerifC09Pipeline(t *testing.T) {
 			}
 		}
 	}
-	fails := []string{"", "final@example.org", "m2@example.org", "plain@example.org", "step2@example.org", "step3@example.org", "deep@example.org", "body"}
+	fails := []string{"", "final@example.org", "m2@example.org", "plain@example.org", "step2@example.org", "step3@example.org", "deep@example.org", "deep2@example.org", "body"}
 	idx := 0
 	for _, sh := range []string{"global-1to1-partial", "dest-1toN-partial", "global-1to1-atomic", "both-targets", "nested-reroute"} {
 		for _, l := range lists {
